@@ -402,7 +402,7 @@ func (r *c10Run) thirdParty() {
 		}
 		for _, tc := range []struct {
 			allow, move int64
-			revoked     int64 // an approval granted earlier and taken back (approve 0) before the one above
+			revoked     int64    // an approval granted earlier and taken back (approve 0) before the one above
 			raw         *big.Int // the allowance in base units when it is not a whole number of FX (boundary values)
 		}{{0, 10, 0, nil}, {50, 51, 0, nil}, {50, 50, 0, nil}, {80, 30, 0, nil}, {0, 10, 40, nil},
 			// "unlimited" approvals as wallets send them: consumed like any other allowance
